@@ -36,6 +36,9 @@ pub enum Fl {
     Ok,
     PendWake,
     Err,
+    /// (flush only) this and every later flush stays Pending and nobody wakes it: a buffering
+    /// writer under back-pressure whose consumer is waiting for something else
+    PendForever,
 }
 #[derive(Default, Debug)]
 pub struct IoLog {
@@ -54,6 +57,11 @@ pub struct IoLog {
     pub shutdown_done: bool,
     pub write_after_shutdown: bool,
     pub read_pending_forever: bool,
+    /// a flush is stuck for good (`Fl::PendForever`)
+    pub flush_stuck: bool,
+    /// the reading side has something ready that nobody has taken yet: bytes, an error, or the
+    /// end-of-stream that was not reported so far
+    pub read_ready: bool,
     pub events: Vec<String>,
 }
 pub struct ScriptIo {
@@ -69,7 +77,18 @@ pub struct ScriptIo {
 impl ScriptIo {
     pub fn new(r: Vec<R>, w: Vec<Wr>, fl: Vec<Fl>, sh: Vec<Fl>, gen_byte: fn(u64) -> u8) -> (Self, Rc<RefCell<IoLog>>) {
         let log = Rc::new(RefCell::new(IoLog::default()));
-        (ScriptIo { r: r.into(), w: w.into(), fl: fl.into(), sh: sh.into(), cur: vec![], off: 0, gen_byte, log: log.clone() }, log)
+        let io = ScriptIo { r: r.into(), w: w.into(), fl: fl.into(), sh: sh.into(), cur: vec![], off: 0, gen_byte, log: log.clone() };
+        io.note_read_ready();
+        (io, log)
+    }
+}
+impl ScriptIo {
+    fn note_read_ready(&self) {
+        let eof_seen = self.log.borrow().eof_returned;
+        // (leading PendWake items do not hide what follows: they are consumed by the next poll)
+        let next = self.r.iter().find(|x| **x != R::PendWake);
+        let ready = !self.cur.is_empty() || matches!(next, Some(R::Chunk(_) | R::Err)) || (matches!(next, Some(R::Eof)) && !eof_seen);
+        self.log.borrow_mut().read_ready = ready;
     }
 }
 impl AsyncBufRead for ScriptIo {
@@ -80,23 +99,30 @@ impl AsyncBufRead for ScriptIo {
         }
         match this.r.front().cloned() {
             None | Some(R::PendForever) => {
-                this.log.borrow_mut().read_pending_forever = true;
+                let mut l = this.log.borrow_mut();
+                l.read_pending_forever = true;
+                l.read_ready = false;
                 Poll::Pending
             }
             Some(R::PendWake) => {
                 this.r.pop_front();
+                this.note_read_ready();
                 cx.waker().wake_by_ref();
                 Poll::Pending
             }
             Some(R::Eof) => {
                 this.log.borrow_mut().eof_returned = true;
+                this.note_read_ready();
                 Poll::Ready(Ok(&[]))
             }
             Some(R::Err) => {
                 this.r.pop_front();
-                let mut l = this.log.borrow_mut();
-                l.read_err = true;
-                l.events.push("read -> Err".into());
+                {
+                    let mut l = this.log.borrow_mut();
+                    l.read_err = true;
+                    l.events.push("read -> Err".into());
+                }
+                this.note_read_ready();
                 Poll::Ready(Err(io::ErrorKind::ConnectionReset.into()))
             }
             Some(R::Chunk(n)) => {
@@ -104,6 +130,7 @@ impl AsyncBufRead for ScriptIo {
                 let n = n.max(1);
                 this.cur = (0..n as u64).map(|i| (this.gen_byte)(this.off + i)).collect();
                 this.off += n as u64;
+                this.log.borrow_mut().read_ready = true;
                 Poll::Ready(Ok(&this.cur))
             }
         }
@@ -113,6 +140,7 @@ impl AsyncBufRead for ScriptIo {
         let amt = amt.min(this.cur.len());
         let taken: Vec<u8> = this.cur.drain(..amt).collect();
         this.log.borrow_mut().produced.extend(taken);
+        this.note_read_ready();
     }
 }
 impl AsyncRead for ScriptIo {
@@ -166,13 +194,17 @@ impl AsyncWrite for ScriptIo {
     }
     fn poll_flush(self: Pin<&mut Self>, cx: &mut Context<'_>) -> Poll<io::Result<()>> {
         let this = self.get_mut();
+        if this.fl.front() == Some(&Fl::PendForever) {
+            this.log.borrow_mut().flush_stuck = true;
+            return Poll::Pending;
+        }
         match this.fl.pop_front() {
             None | Some(Fl::Ok) => {
                 let mut l = this.log.borrow_mut();
                 l.flushed = l.written.len();
                 Poll::Ready(Ok(()))
             }
-            Some(Fl::PendWake) => {
+            Some(Fl::PendWake) | Some(Fl::PendForever) => {
                 cx.waker().wake_by_ref();
                 Poll::Pending
             }
@@ -194,7 +226,7 @@ impl AsyncWrite for ScriptIo {
                 l.flushed = l.written.len();
                 Poll::Ready(Ok(()))
             }
-            Some(Fl::PendWake) => {
+            Some(Fl::PendWake) | Some(Fl::PendForever) => {
                 cx.waker().wake_by_ref();
                 Poll::Pending
             }
